@@ -243,8 +243,9 @@ func runPath(pr *program, cfg *config, solver *Solver, item workItem, seen *inte
 	res := P.res
 	res.Status = end.status
 	res.Detail = end.detail
-	switch end.status {
-	case "panic":
+	// a model of the path condition, so that the replay vector carries values for
+	// the solver variables the path drew (violations that are not assertions)
+	withModel := func(label, kind string) {
 		have := false
 		if !P.concrete {
 			for _, in := range P.inputs {
@@ -260,17 +261,21 @@ func runPath(pr *program, cfg *config, solver *Solver, item workItem, seen *inte
 		func() {
 			defer func() {
 				if r := recover(); r != nil {
-					P.violation("no-panic", "panic", end.detail, false)
+					P.violation(label, kind, end.detail, false)
 				}
 			}()
-			P.violation("no-panic", "panic", end.detail, have)
+			P.violation(label, kind, end.detail, have)
 		}()
+	}
+	switch end.status {
+	case "panic":
+		withModel("no-panic", "panic")
 	case "deadlock":
-		P.violation("no-deadlock", "deadlock", end.detail, false)
+		withModel("no-deadlock", "deadlock")
 	case "fatal":
-		P.violation("no-fatal", "fatal", end.detail, false)
+		withModel("no-fatal", "fatal")
 	case "race":
-		P.violation("no-data-race", "race", end.detail, false)
+		withModel("no-data-race", "race")
 	}
 	if item.Sample || len(res.Violations) > 0 {
 		smp := &PathSample{}
